@@ -24,41 +24,47 @@ def beqBits (a b : Nat) : Bool :=
 /-- `-a` -/
 def negBits (a : Nat) : Nat := if a ≥ 2147483648 then a - 2147483648 else a + 2147483648
 
-/-- the integer value of an integral finite `f32` -/
-def toIntBits (b : Nat) : Option Int :=
+/-- the magnitude of an integral finite `f32` (depends on exponent and mantissa only) -/
+def magToNat (b : Nat) : Option Nat :=
   let e := expo b
   let m := mant b
-  let sgn (n : Nat) : Int := if signBit b then -(Int.ofNat n) else Int.ofNat n
   if e == 255 then none
   else if e == 0 then (if m == 0 then some 0 else none)
   else
     let sig := m + 8388608
-    if e ≥ 150 then some (sgn (sig * 2 ^ (e - 150)))
+    if e ≥ 150 then some (sig * 2 ^ (e - 150))
     else
       let sh := 150 - e
       if sh ≥ 24 then none
-      else if sig % 2 ^ sh == 0 then some (sgn (sig / 2 ^ sh)) else none
+      else if sig % 2 ^ sh == 0 then some (sig / 2 ^ sh) else none
+
+/-- the integer value of an integral finite `f32` -/
+def toIntBits (b : Nat) : Option Int :=
+  match magToNat b with
+  | none => none
+  | some v => some (if signBit b then -(Int.ofNat v) else Int.ofNat v)
 
 def specialBits (b : Nat) : Option String :=
   if expo b == 255 then
     (if mant b != 0 then some "NaN" else if signBit b then some "-inf" else some "inf")
   else none
 
-/-- `n as f32` for an `i32` (round to nearest, ties to even) -/
-def ofIntBits (n : Int) : Nat :=
-  if n == 0 then 0 else
-  let a := n.natAbs
-  let s := if n < 0 then 2147483648 else 0
+/-- bits (sign clear) of the `f32` nearest to the positive natural number `a` (ties to even) -/
+def magOfNat (a : Nat) : Nat :=
   let l := Nat.log2 a
-  if l ≤ 23 then s + (127 + l) * 8388608 + (a * 2 ^ (23 - l) - 8388608)
+  if l ≤ 23 then (127 + l) * 8388608 + (a * 2 ^ (23 - l) - 8388608)
   else
     let sh := l - 23
     let q := a / 2 ^ sh
     let r := a % 2 ^ sh
     let half := 2 ^ (sh - 1)
-    let q' := if r > half || (r == half && q % 2 == 1) then q + 1 else q
-    if q' == 16777216 then s + (127 + l + 1) * 8388608
-    else s + (127 + l) * 8388608 + (q' - 8388608)
+    let q' := if r > half ∨ (r = half ∧ q % 2 = 1) then q + 1 else q
+    if q' = 16777216 then (127 + l + 1) * 8388608
+    else (127 + l) * 8388608 + (q' - 8388608)
+
+/-- `n as f32` for an `i32` (round to nearest, ties to even) -/
+def ofIntBits (n : Int) : Nat :=
+  if n == 0 then 0 else (if n < 0 then 2147483648 else 0) + magOfNat n.natAbs
 
 /-- bits of the `f32` nearest to the natural number `a` (ties to even), sign bit clear -/
 def ofNatBits (a : Nat) : Nat := ofIntBits (Int.ofNat a)
@@ -80,17 +86,16 @@ def shortestLoop (v b : Nat) : Nat → Nat
     else shortestLoop v b k
 
 def intDigitsBits (b : Nat) : Option Int :=
-  match toIntBits b with
+  match magToNat b with
   | none => none
-  | some n =>
-    let v := n.natAbs
+  | some v =>
     let d := shortestLoop v (b % 2147483648) 39
     some (if signBit b then -(Int.ofNat d) else Int.ofNat d)
 
 def bigBits (b : Nat) : Bool :=
-  match toIntBits b with
+  match magToNat b with
   | none => false
-  | some n => decide (n.natAbs ≥ 2147483648)
+  | some v => decide (v ≥ 2147483648)
 
 def ops : RealOps UInt32 where
   beq a b := beqBits a.toNat b.toNat
